@@ -43,8 +43,10 @@ def main():
             },
             "level_note": "; ".join(m.get("trusted_base", []) + m.get("assumptions", [])) or "rustc's MIR faithfully represents the source",
             "technique": m.get("technique", "static analysis: custom MIR rules over the type-checked program (rustc_private driver)") +
-                         "; crate-wide zero-count dataflow rules W1-W6 on the property's anchored files (cast, taint and adaptor dataflow over MIR)" +
-                         ("; size formulas decided by abstract interpretation over residues of the length (A13)" if p in ("C01", "C05", "C06", "C07", "C08", "C11", "C12", "C13", "C14", "C18", "C19") else ""),
+                         "; crate-wide zero-count dataflow rules W1-W8 on the property's anchored files and the storage they are built on (cast, taint and adaptor dataflow over MIR)" +
+                         ("; size formulas decided by abstract interpretation over residues of the length, branching helpers followed path by path (A13)" if p in ("C01", "C05", "C06", "C07", "C08", "C11", "C12", "C13", "C14", "C16", "C17", "C18", "C19") else "") +
+                         ("; bit-provenance domain for bit permutations (A14)" if p == "C17" else "") +
+                         "; rules of the structures this property rests on borrowed under its own ids (raw-vector invariants, tables, select / rank store-read agreement); private renames mapped back to the pinned names before analysis",
         })
     man = {
         "version": 1,
